@@ -139,7 +139,7 @@ def handle (j : Json) : Option Json := do
           let sets ← sets.mapM setOf
           let dtArg ← getRat st "dt"
           let s1 := sets.foldl (fun s (q : Nat × Bool × Rat) => setVar w.M s q.1 q.2.1 q.2.2) s
-          match update w.M (polyRes w.F) (polyRes w.G) affineRoot s1 dtArg with
+          match update w.M (polyRes w.F) (polyRes w.G) soundAffineRoot s1 dtArg with
           | .raised s2 => some ((outcomeJ "raise" [("sv", ratsJ s2.sv)]) :: acc).reverse
           | .returned s2 => go s2 rest (outcomeJ "ok" [("sv", ratsJ s2.sv)] :: acc)
       let outs ← go { sv, dt := dt0 } steps []
@@ -162,7 +162,7 @@ def handle (j : Json) : Option Json := do
       let res :=
         match ioInitialize io F (polyRes w.Finit) G [] (fun _ _ _ => some X0) sv0 with
         | .raised st => Outcome.raised st
-        | .returned st => ioRun io F G affineRoot dtImport st dts
+        | .returned st => ioRun io F G soundAffineRoot dtImport st dts
       let st := res.obj
       pure (outcomeJ (if res.isReturned then "ok" else "raise")
         [("times", ratsJ st.times), ("out", matJ st.out), ("sv", ratsJ st.sim.sv)])
